@@ -461,6 +461,16 @@ class CallGraph:
             if nf.fq not in seen:
                 seen.add(nf.fq)
                 out.append(nf)
+        # module-level functions handed over as values: map(f, xs), filter(f, xs), sorted(xs, key=f), partial(f, ...)
+        for n in walk_local(fi.node):
+            if isinstance(n, ast.Call) and isinstance(n.func, ast.Name) and n.func.id in ('map', 'filter', 'sorted', 'min', 'max', 'partial', 'starmap', 'reduce', 'filterfalse'):
+                cands = list(n.args) + [k.value for k in n.keywords if k.arg == 'key']
+                for a in cands:
+                    if isinstance(a, ast.Name):
+                        r = self.repo.resolve_name(fi.module, a.id)
+                        if r and r[0] == 'func' and r[2].fq not in seen:
+                            seen.add(r[2].fq)
+                            out.append(r[2])
         return out
 
     def reachable(self, roots: List[FuncInfo]) -> List[FuncInfo]:
